@@ -101,10 +101,10 @@ def symbolise(mesh, H, lengths=True, prefix=""):
     """Overwrite the weight arrays of a real mesh by harness inputs (positive reals)."""
     em = mesh.edge_mesh
     ns, ne = len(mesh.sites), len(em.edges)
-    mesh.areas = H.reals(prefix + "a", ns, pos=True)
+    mesh.areas = H.reals(prefix + "a", ns, pos=True, jitter=True)
     if lengths:
-        em.edge_lengths = H.reals(prefix + "e", ne, pos=True)
-    em.dual_edge_lengths = H.reals(prefix + "s", ne, pos=True)
+        em.edge_lengths = H.reals(prefix + "e", ne, pos=True, jitter=True)
+    em.dual_edge_lengths = H.reals(prefix + "s", ne, pos=True, jitter=True)
     return mesh
 
 
